@@ -108,23 +108,21 @@ theorem c36_mod_incr_pow2 (sig mod : Nat) (hm : 0 < mod) (hp : mod &&& (mod - 1)
   rw [if_pos hp]; exact and_pred_pow2 _ _ hm hp
 
 /-
-Full-strength statement of the documented contract of `mod_add`
-("Perform (sig+incr) % mod, for 0 < incr <= max_incr"):
-    ∀ sig mod incr maxIncr, 0 < mod → sig < mod → incr ≤ maxIncr →
-      modAdd sig mod incr maxIncr = (sig + incr) % mod
-It is FALSE of the code (and of the model) when `mod` is not a power of two and
-`mod < maxIncr`: see `c36_mod_add_counterexample`.  Proved: the statement under the extra
-hypothesis `maxIncr ≤ mod` (more precisely `sig + incr < 2 * mod`).
+History: up to commit 656ad56 the case list of `mod_add` was `mod+i ↦ i`, which subtracts
+`mod` only once; the documented contract was false for a non-power-of-two `mod < max_incr`
+(`mod_add(2, 3, 4, 4)` gave 3; finding F11, then `c36_mod_add_partial` with the extra
+hypothesis `max_incr ≤ mod`).  The repaired code (`mod+i ↦ i % mod`) satisfies the contract
+without that hypothesis; the old witness is kept as a regression fact below.
 -/
--- OBLIGATION c36_mod_add_partial : mod_add(sig, mod, incr, max_incr) = (sig+incr) % mod for mod > 0, sig < mod, incr ≤ max_incr UNDER THE ADDED HYPOTHESIS max_incr ≤ mod (finding F11 outside it)
-theorem c36_mod_add_partial (sig mod incr maxIncr : Nat) (hm : 0 < mod) (hs : sig < mod)
-    (hi : incr ≤ maxIncr) (hmax : maxIncr ≤ mod) :
+-- OBLIGATION c36_mod_add : mod_add(sig, mod, incr, max_incr) = (sig+incr) % mod for every mod > 0, every residue sig < mod and every incr ≤ max_incr (no relation between max_incr and mod required)
+theorem c36_mod_add (sig mod incr maxIncr : Nat) (hm : 0 < mod) (hs : sig < mod)
+    (hi : incr ≤ maxIncr) :
     modAdd sig mod incr maxIncr = (sig + incr) % mod := by
   by_cases hp : mod &&& (mod - 1) = 0
   · unfold modAdd; rw [if_pos hp]; exact and_pred_pow2 _ _ hm hp
   · rw [modAdd_nonpow2 _ _ _ _ hp]
     by_cases h : mod ≤ sig + incr
-    · rw [if_pos ⟨h, by omega⟩, mod_of_lt_two_mul _ _ h (by omega)]
+    · rw [if_pos ⟨h, by omega⟩, ← Nat.mod_eq_sub_mod h]
     · rw [if_neg (by omega), Nat.mod_eq_of_lt (by omega)]
 
 -- OBLIGATION c36_mod_add_pow2 : for a power-of-two mod, mod_add = (sig+incr) % mod with no hypothesis on sig, incr, max_incr
@@ -133,14 +131,8 @@ theorem c36_mod_add_pow2 (sig mod incr maxIncr : Nat) (hm : 0 < mod) (hp : mod &
   unfold modAdd
   rw [if_pos hp]; exact and_pred_pow2 _ _ hm hp
 
--- OBLIGATION c36_mod_add_counterexample : negation witness of the full-strength mod_add contract: mod=3, max_incr=4, sig=2, incr=4 satisfies the documented precondition and yields 3, not (2+4)%3 = 0
-theorem c36_mod_add_counterexample :
-    ¬ (∀ sig mod incr maxIncr : Nat, 0 < mod → sig < mod → 0 < incr → incr ≤ maxIncr →
-        modAdd sig mod incr maxIncr = (sig + incr) % mod) := by
-  intro h
-  have := h 2 3 4 4 (by decide) (by decide) (by decide) (by decide)
-  revert this
-  decide
+/-- regression fact for the repaired defect F11 (was 3 before commit 656ad56), and larger overshoots -/
+example : modAdd 2 3 4 4 = 0 ∧ modAdd 2 3 7 7 = 0 ∧ modAdd 4 5 11 11 = 0 ∧ modAdd 6 7 9 9 = 1 := by decide
 
 /-! ## binary_tree_reduce and sum/or/and/min/max_value -/
 
@@ -219,7 +211,7 @@ theorem c36_mux (sel v1 v0 : Nat) : mux sel v1 v0 = if sel = 0 then v0 else v1 :
 /-- non-vacuity: concrete non-trivial instances of the hypotheses / of the functions -/
 example : popcount (toBits 6 0b101101) = 4 ∧ ctz (toBits 6 0b101000) = 3 ∧ clz (toBits 6 0b001010) = 2
     ∧ ctz (toBits 5 0) = 5 := by decide
-example : (0 < 5 ∧ 4 < 5 ∧ 4 ≤ 4 ∧ 4 ≤ 5) ∧ modAdd 4 5 4 4 = 3 ∧ modIncr 4 5 = 0 ∧ modIncr 2 5 = 3 := by decide
+example : (0 < 5 ∧ 4 < 5 ∧ 4 ≤ 4) ∧ modAdd 4 5 4 4 = 3 ∧ modIncr 4 5 = 0 ∧ modIncr 2 5 = 3 := by decide
 example : (4 < 6 ∧ 1 < 6) ∧ cyclicMask 6 4 1 = 0b110011 ∧ cyclicMask 6 1 4 = 0b011110 := by decide
 example : extractLowest 0b010100#6 = 0b000100#6 ∧ clearLowest 0b110100#6 = 0b110000#6
     ∧ maskFrom 0b010100#6 = 0b111100#6 ∧ maskAfter 0b010100#6 = 0b111000#6
@@ -245,9 +237,8 @@ end TxV.Bits
 #print axioms TxV.Bits.c36_mask_before
 #print axioms TxV.Bits.c36_mod_incr
 #print axioms TxV.Bits.c36_mod_incr_pow2
-#print axioms TxV.Bits.c36_mod_add_partial
+#print axioms TxV.Bits.c36_mod_add
 #print axioms TxV.Bits.c36_mod_add_pow2
-#print axioms TxV.Bits.c36_mod_add_counterexample
 #print axioms TxV.Bits.c36_tree_reduce
 #print axioms TxV.Bits.c36_sum_value
 #print axioms TxV.Bits.c36_or_value
